@@ -18,6 +18,7 @@ impl<'de, R: Reader<'de>> Parser<R> {
                 let end = if left == 0x7b { obj_end(s, i) } else { arr_end(s, i) };
                 end.is_some() ==> res.is_ok() && final(self).read.idx() == end.unwrap()
             }),
+            res.is_err() ==> err_ok(res->Err_0, old(self).read.data()),
     { unimplemented!() }
 
     // proved in unit `unchecked` (this is its contract, restated)
@@ -26,6 +27,7 @@ impl<'de, R: Reader<'de>> Parser<R> {
         requires old(self).pinv(), str_end(old(self).read.data(), old(self).read.idx() as int).is_some(),
         ensures final(self).pinv(), final(self).same_doc(old(self)), res.is_ok(),
             final(self).read.idx() == str_end(old(self).read.data(), old(self).read.idx() as int).unwrap(),
+            res.is_err() ==> err_ok(res->Err_0, old(self).read.data()),
     { unimplemented!() }
 
 //@extract file=src/parser.rs impl="Parser<R>" fn=skip_string_unchecked2
@@ -33,6 +35,8 @@ impl<'de, R: Reader<'de>> Parser<R> {
         requires old(self).pinv(), str_end(old(self).read.data(), old(self).read.idx() as int).is_some(),
         ensures final(self).pinv(), final(self).same_doc(old(self)), res.is_ok(),
             final(self).read.idx() == str_end(old(self).read.data(), old(self).read.idx() as int).unwrap(),
+            // every error is made by Parser::error: positioned inside the input (C20)
+            res.is_err() ==> err_ok(res->Err_0, old(self).read.data()),
 //@end
 
 //@extract file=src/parser.rs impl="Parser<R>" fn=get_from_object
@@ -46,6 +50,8 @@ impl<'de, R: Reader<'de>> Parser<R> {
             // same answer as the checked walker
             res.is_ok() <==> object_lookup(old(self).read.data(), old(self).read.idx() as int, target_key.spec_bytes()).is_some(),
             res.is_ok() ==> final(self).read.idx() == object_lookup(old(self).read.data(), old(self).read.idx() as int, target_key.spec_bytes()).unwrap(),
+            // every error is made by Parser::error: positioned inside the input (C20)
+            res.is_err() ==> err_ok(res->Err_0, old(self).read.data()),
 //@before /match self.skip_space\(\) \{/ #1
         let ghost s = self.read.data();
         let ghost i0 = self.read.idx() as int;
@@ -127,6 +133,8 @@ impl<'de, R: Reader<'de>> Parser<R> {
                 // an index past the end is refused; `[]` with index 0 is left to the value skipper that follows
                 &&& (want.is_none() ==> res.is_err() || (index == 0 && ws_end(s, final(self).read.idx() as int) < s.len() && s[ws_end(s, final(self).read.idx() as int)] == 0x5d))
             }),
+            // every error is made by Parser::error: positioned inside the input (C20)
+            res.is_err() ==> err_ok(res->Err_0, old(self).read.data()),
 //@before /let mut count = index;/
         let ghost s = self.read.data();
         let ghost i0 = self.read.idx() as int;
